@@ -7,7 +7,7 @@ import (
 	"strings"
 )
 
-const prelude = `(declare-datatypes ((Ref 0)) (((R (rid Int)) (Sub (sbase Ref) (sfld Int)) (BoxI (unboxI Int)) (BoxS (unboxS String)) (BoxB (unboxB Bool)) (BoxX (unboxX Int)))))
+const prelude = `(declare-datatypes ((Ref 0)) (((R (rid Int)) (Sub (sbase Ref) (sfld Int)) (BoxI (unboxI Int)) (BoxS (unboxS String)) (BoxB (unboxB Bool)) (BoxX (unboxX Int)) (Elt (earr Ref) (eidx Int)))))
 (declare-datatypes ((Iface 0)) (((mkI (itag Int) (iref Ref)))))
 (declare-datatypes ((Slice 0)) (((mkS (sarr Ref) (soff Int) (slen Int) (scap Int)))))
 (define-fun nilR () Ref (R 0))
@@ -23,11 +23,13 @@ const prelude = `(declare-datatypes ((Ref 0)) (((R (rid Int)) (Sub (sbase Ref) (
 (declare-fun int_shl (Int Int) Int)
 (declare-fun int_shr (Int Int) Int)
 (declare-fun str_lt (String String) Bool)
+(declare-fun at (Int Int) Int)
+(assert (forall ((o Int) (i Int)) (! (= (at o i) (+ o i)) :pattern ((at o i)))))
 `
 
-var preludeSyms = []string{"Ref", "R", "rid", "Sub", "sbase", "sfld", "BoxI", "unboxI", "BoxS", "unboxS", "BoxB", "unboxB", "BoxX", "unboxX",
+var preludeSyms = []string{"Ref", "R", "rid", "Sub", "sbase", "sfld", "BoxI", "unboxI", "BoxS", "unboxS", "BoxB", "unboxB", "BoxX", "unboxX", "Elt", "earr", "eidx",
 	"Iface", "mkI", "itag", "iref", "Slice", "mkS", "sarr", "soff", "slen", "scap", "nilR", "nilI", "nilS", "age", "root1", "root", "ageR",
-	"int_and", "int_or", "int_xor", "int_shl", "int_shr", "str_lt"}
+	"int_and", "int_or", "int_xor", "int_shl", "int_shr", "str_lt", "at"}
 
 // typeKey renders a type with short package names.
 func typeKey(t types.Type) string {
